@@ -6,7 +6,7 @@ the optimal structure line and every member of all_dot_brackets.
 """
 import string
 
-from core import Result, call, parallel_map
+from core import call_timed, Result, call, parallel_map
 from gen import g1
 
 OPEN = "([{<" + string.ascii_uppercase
@@ -80,7 +80,9 @@ def real(case):
     out["text"] = call(str, b)
     out["regions"] = call(lambda: ";".join("%d:%d:%d" % r for r in b._BpSeq__regions))
     out["fcfs"] = call(lambda: b.fcfs.structure)
-    out["opt"] = call(lambda: b.dot_bracket.structure) if want_opt else ("skip", "")
+    out["opt"] = call_timed(lambda: b.dot_bracket.structure) if want_opt else ("skip", "")
+    if out["opt"][0] == "slow":
+        out["opt"] = ("skip", "solver-slow")
     if levels is not None:
         out["mk"] = call(lambda: b._BpSeq__make_dot_bracket(b._BpSeq__regions, levels).structure)
     if want_all:
